@@ -41,7 +41,7 @@ const (
 
 var faultNames = []string{"ok", "retry-noappend", "retry-after-append", "fatal", "omit-block", "drop-before", "drop-after", "silent", "leader-move", "no-leader", "leader-move-lag"}
 
-var retriableNoAppend = []sarama.KError{sarama.ErrNotLeaderForPartition, sarama.ErrLeaderNotAvailable, sarama.ErrUnknownTopicOrPartition, sarama.ErrNotEnoughReplicas}
+var retriableNoAppend = []sarama.KError{sarama.ErrNotLeaderForPartition, sarama.ErrLeaderNotAvailable, sarama.ErrUnknownTopicOrPartition, sarama.ErrNotEnoughReplicas, sarama.ErrInvalidMessage}
 var retriableAfterAppend = []sarama.KError{sarama.ErrRequestTimedOut, sarama.ErrNotEnoughReplicasAfterAppend}
 var fatalCodes = []sarama.KError{sarama.ErrMessageSizeTooLarge, sarama.ErrInvalidTopic, sarama.ErrTopicAuthorizationFailed, sarama.ErrUnsupportedForMessageFormat, sarama.ErrInvalidRequiredAcks}
 
